@@ -460,9 +460,9 @@ fn ref_cert_request(b: &[u8], with_sig: bool) -> CrRef {
 }
 
 #[kani::proof]
-#[kani::unwind(11)]
+#[kani::unwind(10)]
 fn c04_certificate_request() {
-    let (buf, n) = sym_input!(9);
+    let (buf, n) = sym_input!(8);
     let b = &buf[..n];
     let r = ManuallyDrop::new(tp::parse_tls_handshake_certificaterequest(b));
     let full = ref_cert_request(b, true);
